@@ -254,6 +254,23 @@ class Evaluator:
                         v = st.get(f"{text}#{i}")
                         if v is not None:
                             st.set(t.id, v)
+            elif (
+                isinstance(n, ast.Assign)
+                and len(n.targets) == 1
+                and isinstance(n.targets[0], ast.Tuple)
+                and isinstance(n.value, ast.Tuple)
+                and len(n.targets[0].elts) == len(n.value.elts)
+                and all(isinstance(t, ast.Name) for t in n.targets[0].elts)
+            ):
+                # ``a, b = (x, y)``: evaluate all values first, then bind (as python does)
+                vals = [(t.id, ve) for t, ve in zip(n.targets[0].elts, n.value.elts)]  # type: ignore[union-attr]
+                targets = {t for t, _ in vals}
+                if any(isinstance(x, ast.Name) and x.id in targets for _, ve in vals for x in ast.walk(ve)):
+                    for name in _binds(step):
+                        st.kill_root(name)
+                else:
+                    for t, ve in vals:
+                        self._assign(t, ve, st)
             else:
                 for name in _binds(step):
                     st.kill_root(name)
